@@ -166,11 +166,13 @@ def make_log(recipe):
 
     chatter(int(rng.integers(0, 4)))
     step = 0
+    crashed = set(recipe.get("crashed", []))      # runs in the middle of the file that never printed 'Loop time'
     for s in range(nsec + (1 if recipe["tail"] != "none" else 0)):
         unfinished = s == nsec
+        killed = (not unfinished) and s in crashed and s < nsec - 1
         ncol = int(rng.integers(1, 6))
         cols = ["Step"] + [THERMO[i] for i in rng.permutation(len(THERMO))[:ncol]]
-        nrows = int(rng.integers(0 if not unfinished else 1, recipe["maxrows"] + 1))
+        nrows = int(rng.integers(0 if not (unfinished or killed) else 1, recipe["maxrows"] + 1))
         trailing = " " if rng.random() < 0.5 else ""
         hdr_line = len(lines)
         lines.append(" ".join(cols) + trailing)
@@ -190,6 +192,12 @@ def make_log(recipe):
         if unfinished:
             sections.append({"cols": cols, "rows": rows, "hdr_line": hdr_line, "loop_line": None})
             break
+        if killed:
+            # the run died here; the restarted job went on writing to the same log
+            sections.append({"cols": cols, "rows": rows, "hdr_line": hdr_line, "loop_line": None, "killed": True})
+            lines.append(CHATTER[0])
+            chatter(int(rng.integers(0, 3)))
+            continue
         loop_line = len(lines)
         lines.append(f"Loop time of {abs(rng.normal(1, 0.5)):.5f} on {int(rng.integers(1, 9))} procs "
                      f"for {nrows} steps with {int(rng.integers(10, 5000))} atoms")
@@ -421,6 +429,7 @@ class World(WorldBase):
                 "recipe": {"nsec": rng.randint(0, 4), "maxrows": rng.choice([2, 6]),
                            "tail": rng.choice(["none", "none", "full-rows", "partial-row"]),
                            "nonfinite": rng.random() < 0.3, "unicode": rng.random() < 0.3, "crlf": rng.random() < 0.15,
+                           "crashed": sorted(rng.sample(range(4), rng.randint(1, 2))) if rng.random() < 0.2 else [],
                            "subseed": rng.randrange(1 << 40)}}
 
     def gen_read_log(self, rng):
@@ -852,10 +861,29 @@ class World(WorldBase):
         self.logs[op["path"]] = {"text": text, "sections": sections}
         return f"{op['path']} sections={len(sections)} bytes={len(text)}"
 
-    def _judge_log(self, res, required, tag, what):
+    def _judge_log(self, res, required, tag, what, gaps=False):
         if not isinstance(res, list) or len(res) < len(required):
             n = len(res) if isinstance(res, list) else type(res).__name__
             raise Violation(f"C19/log-section-count:{tag}", f"{n} sections returned, {len(required)} complete sections in {what}")
+        if gaps:
+            # the log holds runs that died in the middle of the file: whatever is returned for
+            # those is unconstrained, so the complete sections are looked for in order among
+            # the returned tables (a subsequence), each compared exactly
+            j = 0
+            for i, sec in enumerate(required):
+                while True:
+                    if j >= len(res):
+                        raise Violation(f"C19/log-section-missing:{tag}",
+                                        f"complete section {i} (columns {sec['cols']}, {len(sec['rows'])} rows) is not among the "
+                                        f"{len(res)} returned tables in order; {what}")
+                    try:
+                        self._judge_log([res[j]], [sec], tag, what)
+                        j += 1
+                        break
+                    except Violation:
+                        j += 1
+            self.ctx.probe("log_with_crashed_run_in_the_middle")
+            return
         for i, sec in enumerate(required):
             df = res[i]
             cols = [str(c) for c in df.columns]
@@ -884,7 +912,8 @@ class World(WorldBase):
         res, failed = self._read(op, lambda: read_lammpslog(op["path"]), "read_log")
         if failed:
             return "failed by fault"
-        self._judge_log(res, required, "read_log", f"{op['path']} ({len(lg['sections'])} sections incl. unfinished)")
+        self._judge_log(res, required, "read_log", f"{op['path']} ({len(lg['sections'])} sections incl. unfinished)",
+                        gaps=any(x.get("killed") for x in lg["sections"]))
         if any(s["loop_line"] is None for s in lg["sections"]):
             self.ctx.probe("log_with_unfinished_tail")
         return f"{op['path']} {len(required)} complete sections"
@@ -916,7 +945,8 @@ class World(WorldBase):
                 continue
             if required:
                 nreq += 1
-                self._judge_log(res, required, f"torn:{cls}", f"first {c} of {total} bytes of {op['path']}")
+                self._judge_log(res, required, f"torn:{cls}", f"first {c} of {total} bytes of {op['path']}",
+                                gaps=any(x.get("killed") and x["hdr_off"][0] < c for x in secs))
             self.ctx.probe("cut_" + cls)
         try:
             os.unlink(cutpath)
